@@ -77,3 +77,40 @@ func VerifWrappedTokens(input string, limit int) (tokens []VerifToken, panicked 
 	}
 	return tokens, ""
 }
+
+type verifCountingListener struct {
+	*antlr.DefaultErrorListener
+	count int
+}
+
+func (l *verifCountingListener) SyntaxError(_ antlr.Recognizer, _ interface{}, _, _ int, _ string, _ antlr.RecognitionException) {
+	l.count++
+}
+
+// VerifSyntaxCheck parses input with the generated lexer and parser and error listeners of its own
+// (independent of what tree.FromReader installs): number of syntax errors reported, whether input
+// was left after the dialogue rule, number of nodes in the parse tree, and the panic value if the
+// lexer panicked.
+func VerifSyntaxCheck(input string) (syntaxErrors int, leftover bool, nodes int, panicked string) {
+	defer func() {
+		if r := recover(); r != nil {
+			panicked = fmt.Sprint(r)
+		}
+	}()
+	listener := &verifCountingListener{}
+	lexer := parser.NewYarnSpinnerLexer(antlr.NewInputStream(input))
+	lexer.RemoveErrorListeners()
+	lexer.AddErrorListener(listener)
+	stream := antlr.NewCommonTokenStream(lexer, antlr.LexerDefaultTokenChannel)
+	p := parser.NewYarnSpinnerParser(stream)
+	p.RemoveErrorListeners()
+	p.AddErrorListener(listener)
+	tree := p.Dialogue()
+	if next := stream.LT(1); next != nil && next.GetTokenType() != antlr.TokenEOF {
+		leftover = true
+	}
+	if d, ok := tree.(*parser.DialogueContext); ok {
+		nodes = len(d.AllNode())
+	}
+	return listener.count, leftover, nodes, ""
+}
